@@ -300,6 +300,12 @@ class Sizes:
         except NotConstant:
             pass
         if isinstance(e, ast.Attribute) and isinstance(e.value, ast.Name) and e.value.id == 'self':
+            if e.attr not in dict(self.facts.full_attr_order(cls)):
+                # not an instance attribute: a class-level constant (possibly overridden by the subclass)
+                owner_c, const = class_constant(self.facts, cls, e.attr)
+                if const is None:
+                    raise AnalysisError('size() of {}: self.{} is neither an attribute set by __init__ nor a class-level constant'.format(cls, e.attr))
+                return self.lin(const, st)
             return self.lin(field(e.attr), st)
         if isinstance(e, ast.Call) and dotted(e.func) == 'len' and len(e.args) == 1:
             return self.lin(('call', 'len', (self._sym_self(e.args[0], field),), ()), st)
